@@ -133,6 +133,8 @@ def main(argv=None):
         print(f"CHECKER-BROKEN: no task serves {prop}")
         return 3
     timeout_ms = 10000 if tier == "quick" else 60000
+    if tier == "thorough":
+        os.environ["VERIF_CROSS"] = "1"      # every proved VC is re-solved by cvc5 and z3 4.8 (pyvc/ctx.py)
     jobs = [(n, timeout_ms, seed) for n in names]
     with mp.Pool(min(a.jobs, len(jobs))) as pool:
         results = pool.map(_run_one, jobs, chunksize=1)
@@ -151,6 +153,9 @@ def main(argv=None):
             for k, v in r["covers"].items():
                 if not v:
                     broken.append(f"{r['name']}: cover {k} unreachable (vacuous precondition)")
+            for o in r["obligations"]:
+                if o["status"] == "disagreement":
+                    broken.append(f"{r['name']}: {o['name']}: {o.get('reason')}")
     agg = aggregate(results, prop)
     known = json.load(open(os.path.join(ROOT, "known_findings.json"))) if os.path.exists(
         os.path.join(ROOT, "known_findings.json")) else {"findings": []}
@@ -194,6 +199,12 @@ def main(argv=None):
                                "bad": {"name": nm, "model": v, "info": {"bounded": True}, "native": v}, "task": r["name"]}
             if b.get("error"):
                 broken.append(f"{r['name']}: bounded stand-in failed to run: {b['error'][-800:]}")
+    selftest = []
+    if tier == "thorough" and not violations and not broken and os.environ.get("VERIF_NO_SELFTEST") != "1":
+        selftest = seed_selftest(prop)
+        for s in selftest:
+            if s["outcome"] == "missed":
+                broken.append(f"selftest: seeded change {s['seed']} is no longer detected by ./check {prop} (exit {s['exit']})")
     out_lines = []
     rc = 0
     seen_entries = []
@@ -222,7 +233,8 @@ def main(argv=None):
     for n in stale:
         out_lines.append(f"NOTE: known finding {n} no longer reproduces")
     wall = time.time() - t0
-    write_evidence(evid_path, prop, tier, seed, results, agg, known_hit, violations, und_obs, undecided, broken, bounded, wall)
+    write_evidence(evid_path, prop, tier, seed, results, agg, known_hit, violations, und_obs, undecided, broken, bounded, wall,
+                   selftest)
     n_proved = sum(1 for v in agg.values() if v["status"] == "proved")
     print(f"{prop}: {n_proved}/{len(agg)} obligations proved, {len(known_hit)} known findings, {len(violations)} violations, "
           f"{len(und_obs) + len(set(undecided))} undecided, {len(bounded)} bounded stand-ins, {wall:.1f}s, exit {rc}")
@@ -234,8 +246,42 @@ def main(argv=None):
     return rc
 
 
+def seed_selftest(prop):
+    """thorough tier: every kept seeded change of this property (seeded/<prop>-*/patch.diff, written by independent
+    sub-agents, each passing the existing test-suite) is applied to a scratch copy of the tree under check; the quick
+    check of the property must report a violation there.  A seeded change that is no longer caught means the contracts
+    lost detection power: checker broken (exit 3).  A patch that does not apply to the current tree is skipped."""
+    import shutil
+    import tempfile
+    out = []
+    repo = os.environ.get("VERIF_REPO", "/repo")
+    for d in sorted(glob.glob(os.path.join(ROOT, "seeded", prop + "-*"))):
+        patch = os.path.join(d, "patch.diff")
+        if not os.path.exists(patch):
+            continue
+        scratch = tempfile.mkdtemp(prefix="verif_seed_", dir=os.environ.get("TMPDIR", "/var/tmp"))
+        try:
+            shutil.copytree(os.path.join(repo, "src"), os.path.join(scratch, "src"))
+            p = subprocess.run(["patch", "-p1", "-s", "-i", patch], cwd=scratch, capture_output=True, text=True)
+            if p.returncode != 0:
+                out.append({"seed": os.path.basename(d), "outcome": "patch does not apply to this tree", "exit": None})
+                continue
+            env = dict(os.environ, VERIF_REPO=scratch, VERIF_EVIDENCE_DIR=os.path.join(scratch, "evidence"),
+                       VERIF_REPLAY_DIR=os.path.join(scratch, "replays"), VERIF_NO_SELFTEST="1", VERIF_TIER="quick")
+            env.pop("VERIF_CROSS", None)
+            q = subprocess.run([sys.executable, "-m", "pyvc.check", prop, "--tier", "quick"], cwd=ROOT, env=env,
+                               capture_output=True, text=True)
+            vio = [l for l in q.stdout.splitlines() if l.startswith("VIOLATION")]
+            out.append({"seed": os.path.basename(d), "outcome": "detected" if (q.returncode == 1 and vio) else "missed",
+                        "exit": q.returncode, "violation_lines": len(vio),
+                        "first": (vio[0].split("replay=")[-1].split("/")[-1] if vio else q.stdout[-300:])})
+        finally:
+            shutil.rmtree(scratch, ignore_errors=True)
+    return out
+
+
 def write_replay(prop, name, v):
-    d = os.path.join(ROOT, "replays", prop)
+    d = os.path.join(os.environ.get("VERIF_REPLAY_DIR") or os.path.join(ROOT, "replays"), prop)
     os.makedirs(d, exist_ok=True)
     safe = name.replace("/", "_").replace(":", "_")
     path = os.path.join(d, safe + ".json")
@@ -273,7 +319,16 @@ def do_replay(path):
     return 1 if rec.get("reproduced_on_real_code") else 0
 
 
-def write_evidence(path, prop, tier, seed, results, agg, known_hit, violations, und_obs, undecided, broken, bounded, wall):
+def write_evidence(path, prop, tier, seed, results, agg, known_hit, violations, und_obs, undecided, broken, bounded, wall,
+                   selftest=()):
+    cross = {}
+    for r in results:
+        if r["kind"] != "proof":
+            continue
+        for o in r["obligations"]:
+            for nm, ans in ((o.get("info") or {}).get("cross") or {}).items():
+                cross.setdefault(nm, {}).setdefault(ans, 0)
+                cross[nm][ans] += 1
     obligations = []
     for n, v in sorted(agg.items()):
         obligations.append({"name": n, "status": v["status"], "path_instances": v["instances"],
@@ -325,6 +380,8 @@ def write_evidence(path, prop, tier, seed, results, agg, known_hit, violations, 
         "undecided": und_obs + sorted(set(undecided)),
         "checker_broken": [b.splitlines()[0] for b in broken],
         "bounded_standins": bounded,
+        "cross_solver_answers": cross,           # thorough tier: answers of cvc5 / z3 4.8 on the VCs z3 5.1 proved
+        "seeded_change_selftest": list(selftest),   # thorough tier: kept seeded changes re-run on a scratch copy
         "samples": samples or [b.get("samples", [None])[0] for b in bounded][:3],
         "evaluations": max(1, sum(o["path_instances"] for o in obligations) + b_evals),
         "distinct_nontrivial": max(2, len(obligations) + sum(b.get("distinct_nontrivial", 0) for b in bounded)),
